@@ -128,16 +128,87 @@ func checkC18(w *World, r *Report) {
 	ri1 := r.Rule("C18.1", 6, "a source's hash is recorded only after the processor accepted that content, and forgotten only after it accepted the removal")
 	ri2 := r.Rule("C18.2", 6, "an update is applied only if the content hash differs, a creation only for an unknown source; unchanged content triggers no processor call")
 	ri4 := r.Rule("C18.4", 3, "a vanished or emptied source is unloaded only if it was loaded")
-	for fn, ss := range byFn {
-		r.Analysed(w.FnName(fn))
-		var addCalls, delCalls []*ssa.Call
+	// a helper that does nothing but hand the rule set to the processor and return its verdict
+	// stands for the processor call at its call sites (state writes of the caller are checked
+	// against the helper's result)
+	verdictHelper := func(h *ssa.Function) (string, bool) {
+		ss, ok := byFn[h]
+		if !ok || len(stateWrites(h)) > 0 {
+			return "", false
+		}
+		var calls []*ssa.Call
+		kind := ""
 		for _, s := range ss {
+			calls = append(calls, s.Call)
+			k := "add"
 			if s.Kind == "OnDeleted" {
-				delCalls = append(delCalls, s.Call)
-			} else {
-				addCalls = append(addCalls, s.Call)
+				k = "del"
+			}
+			if kind != "" && kind != k {
+				return "", false
+			}
+			kind = k
+		}
+		for _, ret := range returnsOf(h) {
+			if len(ret.Results) == 0 || !isProcResult(ret.Results[len(ret.Results)-1], calls) {
+				return "", false
 			}
 		}
+		return kind, true
+	}
+	type c181 struct {
+		fn   *ssa.Function
+		add  []*ssa.Call
+		del  []*ssa.Call
+		own  []provSite
+		argN map[*ssa.Call]int // index of the rule-set argument of a stand-in call
+	}
+	var hosts []c181
+	for _, fn := range w.Funcs {
+		p := fnPkgPath(fn)
+		if w.isMockFn(fn) || !strings.Contains(p, "/internal/rules/provider/") || strings.Contains(p, "/kubernetes") {
+			continue
+		}
+		h := c181{fn: fn, own: byFn[fn], argN: map[*ssa.Call]int{}}
+		for _, s := range byFn[fn] {
+			if s.Kind == "OnDeleted" {
+				h.del = append(h.del, s.Call)
+			} else {
+				h.add = append(h.add, s.Call)
+			}
+		}
+		for _, ci := range callsIn(fn) {
+			c, ok := ci.(*ssa.Call)
+			if !ok {
+				continue
+			}
+			callee := c.Common().StaticCallee()
+			if callee == nil || callee == fn || fnPkgPath(callee) != p {
+				continue
+			}
+			if kind, ok := verdictHelper(callee); ok {
+				// which argument is the rule set handed on?
+				for i, a := range c.Common().Args {
+					if strings.Contains(a.Type().String(), "RuleSet") {
+						h.argN[c] = i
+					}
+				}
+				if kind == "del" {
+					h.del = append(h.del, c)
+				} else {
+					h.add = append(h.add, c)
+				}
+			}
+		}
+		if len(h.add)+len(h.del) > 0 {
+			hosts = append(hosts, h)
+		}
+	}
+	sort.Slice(hosts, func(i, j int) bool { return hosts[i].fn.String() < hosts[j].fn.String() })
+	for _, host := range hosts {
+		fn, ss := host.fn, host.own
+		r.Analysed(w.FnName(fn))
+		addCalls, delCalls := host.add, host.del
 		n := 0
 		for _, sw := range stateWrites(fn) {
 			n++
@@ -160,6 +231,9 @@ func checkC18(w *World, r *Report) {
 				okHash = false
 				for _, k := range calls {
 					rs := k.Common().Args[0]
+					if i, standIn := host.argN[k]; standIn {
+						rs = k.Common().Args[i]
+					}
 					// the value stored is <rs>.Hash for the very value rs that was handed over (SSA value
 					// identity: an element of the same slice at another index is a different value)
 					if ld, isLd := stripConv(sw.Val).(*ssa.UnOp); isLd {
@@ -302,7 +376,28 @@ func checkC18(w *World, r *Report) {
 			touching[fn] = 1
 		}
 	}
-	for fn := range byFn {
+	// candidates: provider functions that load a rule set and then (directly or through a helper)
+	// talk to the processor or touch the state
+	var c3 []*ssa.Function
+	for _, fn := range w.Funcs {
+		if w.isMockFn(fn) || !strings.Contains(fnPkgPath(fn), "/internal/rules/provider/") || strings.Contains(fnPkgPath(fn), "/kubernetes") || fn.Parent() != nil {
+			continue
+		}
+		_, direct := byFn[fn]
+		viaHelper := false
+		for _, ci := range callsIn(fn) {
+			if callee := ci.Common().StaticCallee(); callee != nil && callee != fn && w.inModule(callee) && fnPkgPath(callee) == fnPkgPath(fn) {
+				if _, has := byFn[callee]; has {
+					viaHelper = true
+				}
+			}
+		}
+		if direct || viaHelper {
+			c3 = append(c3, fn)
+		}
+	}
+	sort.Slice(c3, func(i, j int) bool { return c3[i].String() < c3[j].String() })
+	for _, fn := range c3 {
 		for _, lc := range findCalls(fn, func(c *ssa.CallCommon) bool {
 			callee := c.StaticCallee()
 			return callee != nil && w.inModule(callee) && lastResultIsError(c.Signature()) && c.Signature().Results().Len() == 2 &&
